@@ -842,3 +842,103 @@ pub fn record(driver: &str, seed: u64, thorough: bool, out: &mut Out) -> Stats {
     }
     s.stats
 }
+
+// ---------------------------------------------------------------------------------------------
+// specification -> implementation: every transition of the bounded Quantizer.tla graph
+// (spec/Graph_Quantizer.cfg: the real constants on a grid of 1/240 V, scales reached by editing C, G, B
+// and "all the others") on the real Quantizer. One model unit is 1/240 V; every input of the graph is two
+// or more units (8 mV) away from every bucket border, window edge and nearest-note midpoint, so the note
+// is determined without any tolerance. Events are written in the trace format of this module, so that a
+// mismatch can be replayed and re-validated by Trace_Quantizer like any recorded run.
+
+pub struct GraphTarget {
+    out: Out,
+    q: Option<Quantizer>,
+}
+
+impl GraphTarget {
+    pub fn new() -> Self {
+        GraphTarget { out: Out::memory(), q: None }
+    }
+}
+
+impl crate::graphrun::Target for GraphTarget {
+    fn fresh(&mut self) {
+        self.out = Out::memory();
+        self.out.line("{\"op\":\"new\"}");
+        self.q = guarded(Quantizer::new).ok();
+    }
+    fn apply(&mut self, op: &serde_json::Value, p: &serde_json::Value) -> Vec<String> {
+        let mut tags = Vec::new();
+        let q = match self.q.as_mut() {
+            Some(q) => q,
+            None => return vec!["C17:panic".to_string()],
+        };
+        let want_mask: u32 = p[1].as_array().unwrap().iter().fold(0, |m, k| m | (1 << k.as_u64().unwrap()));
+        match op["op"].as_str().unwrap() {
+            "cv" => {
+                let u = op["u"].as_i64().unwrap();
+                let v = (u as f64 / 240.0) as f32;
+                match guarded(|| q.convert(v)) {
+                    Ok(c) => {
+                        self.out.line(&format!(
+                            "{{\"op\":\"cv\",\"k\":{},\"nan\":false,\"u\":{},\"n\":{},\"sk\":{},\"fq\":{},\"eu\":{},\"ec\":{}}}",
+                            key(v), units(v), c.note_num, key(c.stairstep), frac_units(&c), err_ulps(&c, v), err_ulps(&c, clampv(v))
+                        ));
+                        let want = p[0].as_u64().unwrap();
+                        if c.note_num as u64 != want {
+                            if want_mask & (1 << (c.note_num % 12)) == 0 {
+                                tags.push("C07:forbidden-note".to_string());
+                            }
+                            if op["k"].as_bool().unwrap_or(false) {
+                                tags.push("C09:graph-note-not-kept-inside-window".to_string());
+                            } else {
+                                tags.push("C09:graph-history-leaks-outside-window".to_string());
+                                tags.push("C08:graph-not-nearest".to_string());
+                            }
+                        }
+                    }
+                    Err(msg) => {
+                        self.out.line(&format!("{{\"op\":\"panic\",\"where\":\"convert\",\"during\":\"convert\",\"msg\":{}}}", jstr(&msg)));
+                        self.q = None;
+                        return vec!["C17:panic".to_string(), "C08:panic".to_string(), "C07:panic".to_string(), "C09:panic".to_string()];
+                    }
+                }
+            }
+            o @ ("al" | "fb") => {
+                let ns: Vec<u8> = op["ns"].as_array().unwrap().iter().map(|x| x.as_u64().unwrap() as u8).collect();
+                let r = guarded(|| {
+                    let notes: Vec<Note> = ns.iter().map(|n| Note::from(*n)).collect();
+                    if o == "al" {
+                        q.allow(&notes)
+                    } else {
+                        q.forbid(&notes)
+                    }
+                });
+                if let Err(msg) = r {
+                    self.out.line(&format!("{{\"op\":\"panic\",\"where\":\"edit\",\"during\":\"{}\",\"msg\":{}}}", o, jstr(&msg)));
+                    self.q = None;
+                    return vec!["C17:panic".to_string(), "C07:panic".to_string(), "C20:panic".to_string()];
+                }
+                let list: Vec<String> = ns.iter().map(|n| n.to_string()).collect();
+                self.out.line(&format!("{{\"op\":\"{}\",\"ns\":[{}],\"m\":{}}}", o, list.join(","), mask_of(self.q.as_ref().unwrap())));
+            }
+            other => {
+                eprintln!("unknown quantizer graph op {}", other);
+                std::process::exit(2)
+            }
+        }
+        if let Some(q) = self.q.as_ref() {
+            if mask_of(q) != want_mask {
+                tags.push("C07:graph-scale".to_string());
+                if op["op"] != "cv" && op["ns"].as_array().unwrap().iter().any(|x| x.as_u64().unwrap() > 11) {
+                    tags.push("C20:note-not-clamped".to_string());
+                }
+            }
+        }
+        tags
+    }
+    fn trace(&self) -> Vec<String> {
+        self.out.mem.clone()
+    }
+}
